@@ -26,6 +26,7 @@ void vf_replay_assume_fail (const char *file, int line);
 #define VF_ASSERT(c, label) do { if (!(c)) vf_replay_assert_fail ("PROP", label, __FILE__, __LINE__); } while (0)
 #define VF_FINDING(c, key) do { if (!(c)) vf_replay_assert_fail ("FINDING", key, __FILE__, __LINE__); } while (0)
 #define VF_WITNESS(label) do { } while (0)
+#define VF_WITNESS_OPT(label) do { } while (0)
 #define __CPROVER_assume(c) VF_ASSUME(c)
 #define __CPROVER_DYNAMIC_OBJECT(p) 1
 #define __CPROVER_assert(c, m) VF_ASSERT(c, m)
@@ -40,6 +41,12 @@ void vf_replay_assume_fail (const char *file, int line);
 #define VF_WITNESS(label) do { } while (0)
 #else
 #define VF_WITNESS(label) __CPROVER_assert (0, "WITNESS: " label)
+#endif
+/* optional witness: reported when reachable, not required (shape-dependent situations) */
+#ifdef VF_NO_WITNESS
+#define VF_WITNESS_OPT(label) do { } while (0)
+#else
+#define VF_WITNESS_OPT(label) __CPROVER_assert (0, "WITNESS?: " label)
 #endif
 #define VF_DEF_IN(T, name) \
   T nondet_vf_##name (void); \
